@@ -639,6 +639,11 @@ class CompartmentedModel(Process):
 
         :param n: the node'''
 
+        # remove the node's incident edges from any loci, since
+        # they leave the network along with the node
+        for (_, m) in list(self.network().edges(n)):
+            self._callRemoveHandlers((n, m))
+
         # remove node from any loci, and from its compartment
         self._callRemoveHandlers(n)
 
